@@ -27,7 +27,9 @@ CHECKS = {
           "computed, stored before every return. Quantifies over every step of every execution, which sampled traces cannot.",
   "note": "NOT decided (value-level): that reported values equal the consensus evaluator's (that is C06's undecided part), "
           "cldb_hierarchy's grouping by function, hex-supplied vs source-form equivalence. Breaking a decided clause breaks "
-          "the property; satisfying them does not establish it.",
+          "the property; satisfying them does not establish it. One known finding (F20: rows of apply report the next "
+          "sub-step's value; pinned by the existing tests, not repaired). The hex loader must build leaves through "
+          "convert_from_clvm_rs (R12.hex).",
   "technique": "MIR value-flow (pure slices to enum downcasts) + must-pass-through / dominance",
   "design": "3.12",
  },
